@@ -1,6 +1,7 @@
 package keeper
 
 import (
+	"math/bits"
 	"strconv"
 
 	assetTypes "github.com/comdex-official/comdex/x/asset/types"
@@ -127,12 +128,15 @@ func (k Keeper) UpdatePriceList(ctx sdk.Context, id, scriptID, rate, twaBatch ui
 }
 
 func (k Keeper) CalculateTwa(ctx sdk.Context, twa types.TimeWeightedAverage, twaBatch uint64) uint64 {
-	var sum uint64
+	// the sum of twaBatch 64-bit samples needs more than 64 bits: accumulate with carry
+	var sum, carry uint64
 	oldTwa := twa.Twa
 	for i := 0; i < int(twaBatch); i++ {
-		sum = sum + twa.PriceValue[i]
+		var c uint64
+		sum, c = bits.Add64(sum, twa.PriceValue[i], 0)
+		carry += c
 	}
-	twa.Twa = sum / twaBatch
+	twa.Twa, _ = bits.Div64(carry, sum, twaBatch)
 
 	if oldTwa != twa.Twa {
 		ctx.EventManager().EmitEvents(sdk.Events{
